@@ -252,6 +252,9 @@ class ListS(Spec):
             v = list_reversed(ex, st, v[1], line)
         if hasattr(v, 'as_list'):
             v = v.as_list(ex, st, label, line)
+        if isinstance(v, OptVal):
+            ex.prove(st, label + ':not-none', Not(v.isnone), line)
+            v = v.val
         if not isinstance(v, TokList):
             raise EngineError('%s: expected list, got %r' % (label, v))
         if self.lenpred:
@@ -298,7 +301,22 @@ class DictS(Spec):
         d.has = (lambda ex_, st_, k: True) if self.total else \
             (lambda ex_, st_, k: ss.member(ex_, st_, k))
         val = self.val
-        d.default_mk = lambda ex_, st_, k: val.make(ex_, st_)
+        cache = {}
+
+        def mk(ex_, st_, k):
+            # same key term -> same value
+            if isinstance(k, tuple):
+                ck = ('t',) + tuple((lift_str(e).arr.sexpr(),
+                                     str(lift_str(e).ln)) if is_str(e)
+                                    else repr(e) for e in k)
+            elif k is None or isinstance(k, str):
+                ck = ('c', k)
+            else:
+                ck = ('s', k.arr.sexpr(), str(k.ln))
+            if ck not in cache:
+                cache[ck] = val.make(ex_, st_)
+            return cache[ck]
+        d.default_mk = mk
         d.strset = ss
         return d
 
@@ -315,7 +333,8 @@ class FContract:
     def __init__(self, qual, params, requires=(), result=None, ensures=(),
                  post_objs=(), ghosts=None, label=None, effects=None,
                  no_return=False, free=None, pure=False, olds=None,
-                 assumed_result=None, assumed_note='', returns_param=None):
+                 assumed_result=None, assumed_note='', returns_param=None,
+                 assumed_ensures=()):
         self.qual = qual
         self.params = params            # ordered dict name -> Spec | None
         self.requires = list(requires)
@@ -335,6 +354,7 @@ class FContract:
         self.assumed_result = assumed_result
         self.assumed_note = assumed_note
         self.returns_param = returns_param   # function returns this argument
+        self.assumed_ensures = list(assumed_ensures)   # call side only
 
     def loop(self, ordinal):
         ls = self.loops.get(ordinal)
@@ -428,6 +448,9 @@ class FContract:
             r = self.result(A).make(ex, st)
         for lab, fn in self.ensures:
             st.assume(fn(A, r))
+        for lab, fn in self.assumed_ensures:
+            st.assume(fn(A, r))
+            ex.used_assumptions.add('%s: %s' % (self.qual, lab))
         st.mut += 0 if self.pure else 1
         yield st, r
 
@@ -525,7 +548,21 @@ class ContractTable:
 
     def module_global(self, ex, st, module, name):
         if self.globals_hook:
-            return self.globals_hook(ex, st, module, name)
+            r = self.globals_hook(ex, st, module, name)
+            if r is not NotImplemented:
+                return r
+        # module-level literal constants (bool / int / str / list of str)
+        import ast as _ast
+        node = ex.repo.modules[module].globals.get(name)
+        try:
+            v = _ast.literal_eval(node)
+        except Exception:
+            return NotImplemented
+        if isinstance(v, (bool, int, str)):
+            return v
+        if isinstance(v, (list, tuple)) and all(isinstance(x, str)
+                                                for x in v):
+            return TokList([Single(x) for x in v])
         return NotImplemented
 
     def empty_list_kind(self, func, line):
